@@ -691,6 +691,8 @@ ProgResult check_program(const Program& p, long exhaust)
     }
     if (exhaust <= 0)
         return R;
+    if (p.cfg.cap >= 64 && exhaust > 150)
+        exhaust = 150; // big programs: hundreds of value points per operation, the tree is astronomically large anyway - sample its deep end only
     // stateless depth-first enumeration of the schedule tree
     std::vector<int> choices;
     long             n = 0;
